@@ -112,11 +112,14 @@ type Interp struct {
 	env       *EnvHooks
 	ghost     map[string]Value
 	pcSet     map[int]bool
+	pcMarks   []int
 	lockTab   map[string]*lockState
 	caseLabel string
 	curOp     string
 	sample    string
 	fnStack   []*ssa.Function
+	blobs      map[*SymStr]*blobRec
+	tsGhost    map[*Obj]TimeV
 	drawCursor int
 	sent       []sentRec
 	spec      bool // speculative (side-effect free) evaluation of a branch arm
@@ -153,6 +156,8 @@ func (in *Interp) unsupported(format string, a ...interface{}) {
 // choose picks one of several alternatives, each guarded by a condition.
 // Conditions need not be exclusive; infeasible ones are pruned by the solver.
 // site is used for unwinding accounting (may be nil).
+var slowDebug = os.Getenv("GOSYM_SLOW") != ""
+
 type specAbort struct{}
 
 // sentRec pairs a robust.Message appended by (*IRCServer).send with the irc.Message it renders.
@@ -217,6 +222,7 @@ func (in *Interp) choose(conds []*Term) int {
 			panic(fmt.Sprintf("decision replay out of range: %d of %d", k, len(conds)))
 		}
 		if !conds[k].IsTrue() {
+			in.pcMarks = append(in.pcMarks, len(in.pc))
 			in.addPC(conds[k])
 		}
 		return k
@@ -228,7 +234,10 @@ func (in *Interp) choose(conds []*Term) int {
 			feas = append(feas, i)
 			continue
 		}
-		r := in.w.solver.Check(in.pc, conds[i])
+		if slowDebug {
+			in.w.solver.ctx = in.curFnName() + " case=" + in.caseLabel
+		}
+		r := in.check(conds[i])
 		switch r {
 		case Sat:
 			feas = append(feas, i)
@@ -252,6 +261,7 @@ func (in *Interp) choose(conds []*Term) int {
 	k := feas[0]
 	in.decisions = append(in.decisions, k)
 	if !conds[k].IsTrue() {
+		in.pcMarks = append(in.pcMarks, len(in.pc))
 		in.addPC(conds[k])
 	}
 	return k
@@ -285,7 +295,7 @@ func (in *Interp) assume(c *Term) {
 	in.addPC(c)
 	if in.pos >= len(in.prefix) {
 		// new territory: check feasibility once
-		if in.w.solver.Check(in.pc, nil) == Unsat {
+		if in.check(nil) == Unsat {
 			panic(&pathEnd{kind: "assume"})
 		}
 	}
@@ -338,7 +348,7 @@ func (in *Interp) concretize(t *Term, what string) uint64 {
 	// the decision vector so that re-execution is deterministic
 	for n := 0; n < 64; n++ {
 		v := in.logged(func() uint64 {
-			r, m := in.w.solver.Model(in.pc, nil, []*Term{t})
+			r, m := in.model(nil, []*Term{t})
 			if r == Unsat {
 				panic(&pathEnd{kind: "infeasible"})
 			}
@@ -1132,4 +1142,14 @@ func (in *Interp) iteTime(c *Term, a, b TimeV) (Value, bool) {
 		return r, true
 	}
 	return nil, false
+}
+
+func (in *Interp) check(extra *Term) SatResult {
+	in.w.solver.marks = in.pcMarks
+	return in.w.solver.Check(in.pc, extra)
+}
+
+func (in *Interp) model(extra *Term, syms []*Term) (SatResult, map[string]uint64) {
+	in.w.solver.marks = in.pcMarks
+	return in.w.solver.Model(in.pc, extra, syms)
 }
